@@ -4,10 +4,5 @@ CONSTANTS
   MaxEdges = 3
   TimeVecs <- TimeVecsS
   FlagVecs <- FlagVecsS
-  TrackedMode = 3
-  Thresholds = {1,2,3}
-  Depth = 10
-SPECIFICATION SSpec
-INVARIANT Emit
-INVARIANT StateOK
+SPECIFICATION Spec
 CHECK_DEADLOCK FALSE
